@@ -60,6 +60,13 @@ def step(kind, n, fk, dk):
         return dict(cmd="doman %s" % f, ok=False, entries=[])
     if kind == "keepdir":
         return dict(cmd="keepdir /var/keep%d" % n, ok=True, entries=[("var/keep%d" % n, "dir", None)])
+    if kind == "unpack-missing":
+        # a command the ebuild sends itself (no helper script in between): the failure path is __ipc_exit's own
+        return dict(cmd="unpack nosuch%d.tar" % n, ok=False, entries=[])
+    if kind == "unpack-bad-path":
+        return dict(cmd="unpack sub/dir%d/x.tar" % n, ok=False, entries=[])
+    if kind == "docompress":
+        return dict(cmd="docompress /usr/share/vt%d" % n, ok=True, entries=[])
     if kind == "has_version-absent":
         return dict(cmd="has_version cat/nothing%d" % n, ok=None, rc=1, entries=[])
     if kind == "has_version-present":
@@ -67,9 +74,10 @@ def step(kind, n, fk, dk):
     raise KeyError(kind)
 
 
-OK_KINDS = ("dodir", "doins", "doins-two", "doins-r", "dosym", "dobin", "dodoc", "doman", "keepdir",
+OK_KINDS = ("dodir", "doins", "doins-two", "doins-r", "dosym", "dobin", "dodoc", "doman", "keepdir", "docompress",
             "has_version-absent", "has_version-present")
-FAIL_KINDS = ("doins-missing", "doins-missing-odd-name", "doins-dir", "dosym-one-arg", "dobin-missing", "doman-nosection")
+FAIL_KINDS = ("doins-missing", "doins-missing-odd-name", "doins-dir", "dosym-one-arg", "dobin-missing", "doman-nosection",
+              "unpack-missing", "unpack-missing", "unpack-bad-path")
 NFILES = 4
 NDIRS = 2
 
@@ -154,7 +162,8 @@ def child(scen_path, out_path):
         vebd.write(T + "/environment", 'S="%s"\nWORKDIR="%s"\nsrc_install() { source "${T}/body.sh"; }\n' % (W, W))
         vebd.write(T + "/body.sh", body_of(sc))
         domain = hx.Domain(FakeRepo([FakePkg("app-misc/present-1")]))
-        op = hx.Op(int(eapi), D, env={"ROOT": "/", "EROOT": "/", "BROOT": "/", "SYSROOT": "/", "ESYSROOT": "/"}, domain=domain)
+        op = hx.Op(int(eapi), D, env={"ROOT": "/", "EROOT": "/", "BROOT": "/", "SYSROOT": "/", "ESYSROOT": "/", "DISTDIR": E},
+                   domain=domain)
         op.pkg.PF = pf(eapi)
         env = processor.expected_ebuild_env(pkg, {}, depends=True)
         eobj = pkg.eapi
